@@ -16,6 +16,7 @@ func init() {
 			c.run("C18-R2", "GUARD-DOM/SIBLING: the other side tolerates keep-alives", c18R2)
 			c.run("C18-R3", "ORDER: a read that straddles a pause is retried; resume re-arms before un-pausing", c18R3)
 			c.run("C18-R4", "WHO-WRITES: pause flag and generation", c18R4)
+			c.run("C18-R6", "WHO-CALLS: the timeout sentinel travels up the read chain unwrapped", c18Sentinel)
 			c.run("C18-R5", "GUARD-DOM: statistics suspended after a pause never skip releasing the probing encoder", c18R5)
 		})
 }
@@ -448,4 +449,75 @@ func c18R5(c *Ctx) {
 		}
 	}
 	c.bad("pipelineRecvAck/stats-while-probing", c.pos(f.Pos()), "acks received while probing can skip the branch that releases the encoder")
+}
+
+// c18Sentinel: a read that timed out across a pause is recognised by identity with the timeout sentinel
+// (`err == errReceiveDataTimeout` in recvCheckV2). The sentinel is produced by the buffer wait and travels up through
+// readLine / readLineOnWindows / readBinary and recvLine; none of them may hand it to another function and return
+// that function's result instead (a re-wrapped timeout is no longer recognised and the paused side fails).
+func c18Sentinel(c *Ctx) {
+	chain := map[string]bool{}
+	for _, n := range []string{"trzszBuffer.nextBuffer", "trzszBuffer.readLine", "trzszBuffer.readLineOnWindows", "trzszBuffer.readBinary", "trzszTransfer.recvLine"} {
+		c.fn(n)
+		chain[n] = true
+	}
+	// the comparison this rule protects
+	cmp := false
+	rc := c.fn("trzszTransfer.recvCheckV2")
+	eachInstr(rc, func(in ssa.Instruction) {
+		if b, ok := in.(*ssa.BinOp); ok && (b.Op == token.EQL || b.Op == token.NEQ) {
+			for _, v := range []ssa.Value{b.X, b.Y} {
+				if u, isU := strip(v).(*ssa.UnOp); isU {
+					if g, isG := u.X.(*ssa.Global); isG && g.Name() == "errReceiveDataTimeout" {
+						cmp = true
+					}
+				}
+			}
+		}
+	})
+	c.check(cmp, "recvCheckV2/recognises-timeout-by-identity", c.pos(rc.Pos()), "the straddling read is recognised by identity with the timeout sentinel", "recvCheckV2 no longer compares the read error with the timeout sentinel")
+	n := 0
+	for name := range chain {
+		f := c.Funcs[name]
+		ei := errIndex(f.Signature)
+		eachInstr(f, func(in ssa.Instruction) {
+			r, ok := in.(*ssa.Return)
+			if !ok || ei < 0 {
+				return
+			}
+			for _, l := range origins(retVal(r, ei), originOpts{}) {
+				call, _ := callOf(l.V)
+				if call == nil {
+					continue
+				}
+				callee := call.Call.StaticCallee()
+				if callee == nil || !c.inPkg(callee) {
+					continue
+				}
+				cn := c.fnName(callee)
+				if chain[cn] || cn == "trzszTransfer.checkStop" {
+					n++
+					continue // the callee's own error, passed up unchanged
+				}
+				// another function of the package: does it receive an error of the chain as an argument?
+				takesErr := false
+				for _, a := range call.Call.Args {
+					if !isErrorType(a.Type()) {
+						continue
+					}
+					for _, la := range origins(a, originOpts{}) {
+						if ac, _ := callOf(la.V); ac != nil {
+							if acallee := ac.Call.StaticCallee(); acallee != nil && chain[c.fnName(acallee)] {
+								takesErr = true
+							}
+						}
+					}
+				}
+				c.check(!takesErr, name+"/timeout-passed-up-unchanged", c.ipos(r), "the error of the read below is returned as it is", "the error of the read below is handed to "+cn+" and that function's result is returned: a re-wrapped timeout is not recognised after a pause")
+			}
+		})
+	}
+	if n < 4 {
+		c.undecided("timeout-sentinel/pass-through-sites", "fewer pass-through returns than expected in the read chain")
+	}
 }
